@@ -24,6 +24,9 @@ import (
 	"verifharness/hx"
 )
 
+// LinkMark starts the content of a node that stands for a symbolic link.
+const LinkMark = "\x00symlink:"
+
 // Node is a file-system tree: a file (Content) or a directory (Kids, sorted by name).
 type Node struct {
 	IsDir   bool
@@ -125,6 +128,10 @@ func Materialize(path string, n *Node) error {
 		return nil
 	}
 	if !n.IsDir {
+		if strings.HasPrefix(n.Content, LinkMark) {
+			// exotic stage only: a symbolic link (the model sees a file with this content)
+			return os.Symlink(strings.TrimPrefix(n.Content, LinkMark), path)
+		}
 		if err := os.WriteFile(path, []byte(n.Content), 0644); err != nil {
 			return err
 		}
@@ -150,6 +157,10 @@ func Snapshot(path string) *Node {
 	fi, err := os.Lstat(path)
 	if err != nil {
 		return nil
+	}
+	if fi.Mode()&os.ModeSymlink != 0 {
+		t, _ := os.Readlink(path)
+		return &Node{Content: LinkMark + t, MTime: fi.ModTime().UnixNano()}
 	}
 	if !fi.IsDir() {
 		b, _ := os.ReadFile(path)
@@ -177,6 +188,7 @@ type Req struct {
 	FailAfter   int    // >= 0: the body reader fails after that many bytes
 	PfBody      string // PROPFIND: none | allprop | propname | empty | bad | junk
 	Cancel      int    // >= 0: the request context is cancelled once that many body bytes were delivered (0: before the request is served)
+	Race        string // what happens to the sandbox when the body is first read: "" | rmparent | mkdirtarget | mkdirfull | filetarget | parentfile | rmroot
 }
 
 func NewReq(method, path string) Req {
@@ -186,10 +198,13 @@ func NewReq(method, path string) Req {
 func (r Req) Sx() string {
 	items := []string{"req", hx.S(r.Method), hx.S(r.Path), hx.S(r.Depth), hx.S(r.Overwrite), hx.S(r.Dest), hx.S(r.CType),
 		hx.S(r.IfMatch), hx.S(r.IfNoneMatch), hx.S(r.Body), hx.I(int64(r.FailAfter)), r.PfBody}
-	if r.Cancel >= 0 {
+	if r.Cancel >= 0 || r.Race != "" {
 		// the model has no such field: no function of the file server reads the
 		// context, and the correspondence shows that the code ignores it too
 		items = append(items, hx.I(int64(r.Cancel)))
+	}
+	if r.Race != "" {
+		items = append(items, r.Race)
 	}
 	return hx.L(items...)
 }
@@ -200,6 +215,9 @@ func ParseReq(x hx.Sx) Req {
 		IfMatch: a[6].Str(), IfNoneMatch: a[7].Str(), Body: a[8].Str(), FailAfter: int(a[9].Int()), PfBody: a[10].Atom, Cancel: -1}
 	if len(a) > 11 {
 		r.Cancel = int(a[11].Int())
+	}
+	if len(a) > 12 {
+		r.Race = a[12].Atom
 	}
 	return r
 }
@@ -574,6 +592,30 @@ func (s *Sandbox) Do(r Req, before *Node) (Derived, Obs, *Node) {
 	}
 	if s.wrap != nil {
 		body = s.wrap(body)
+	}
+	if r.Race != "" {
+		rootDir := filepath.Join(append([]string{s.Dir}, s.RootRel...)...)
+		target := filepath.Join(rootDir, filepath.FromSlash(r.Path))
+		body = &probeReader{r: body, look: func() {
+			switch r.Race {
+			case "rmparent":
+				os.RemoveAll(filepath.Dir(target))
+			case "mkdirtarget":
+				os.Remove(target)
+				os.Mkdir(target, 0755)
+			case "mkdirfull":
+				os.Remove(target)
+				os.Mkdir(target, 0755)
+				os.WriteFile(filepath.Join(target, "member"), []byte("m"), 0644)
+			case "filetarget":
+				os.WriteFile(target, []byte("raced"), 0644)
+			case "parentfile":
+				os.RemoveAll(filepath.Dir(target))
+				os.WriteFile(filepath.Dir(target), []byte("now a file"), 0644)
+			case "rmroot":
+				os.RemoveAll(rootDir)
+			}
+		}}
 	}
 	ctx, cancel := context.WithCancel(context.Background())
 	defer cancel()
